@@ -20,8 +20,8 @@ type State struct {
 	ghost  map[string]Val
 	defers []deferred
 	old    *State
-	depth  int      // inline depth
-	taint  []string // callees without contract whose effects were havoc'd on this path
+	depth  int            // inline depth
+	taint  []string       // callees without contract whose effects were havoc'd on this path
 	locks  map[string]int // mutexes locked by this unit and not yet unlocked on this path (key: receiver text)
 }
 
